@@ -473,6 +473,19 @@ def as_completed(
     ignore_failures: bool = False,
 ) -> Iterator[Any]:
   """Run tasks within the worker pool."""
+  try:
+    yield from _as_completed(worker_pool, task_iterator, ignore_failures)
+  finally:
+    # The workers are also released when an error leaves the loop.
+    worker_pool.release_all()
+
+
+def _as_completed(
+    worker_pool: courier_worker.WorkerPool,
+    task_iterator: Iterable[courier_worker.Task | types.Resolvable],
+    ignore_failures: bool = False,
+) -> Iterator[Any]:
+  """Run tasks within the worker pool."""
   task_iterator = iter(task_iterator)
   running_tasks: list[courier_worker.Task] = []
   tasks: list[courier_worker.Task] = []
